@@ -111,7 +111,8 @@ def random_session(rng):
             ops.append([rng.choice(["q", "q", "h"]), rng.choice(nodes), rng.choice(nodes), obj()])
         else:
             ops.append(["s", rng.choice(nodes), cut(), obj()])
-    return {"kind": "sess", "n": n, "ops": ops}
+    # node ids as the network reader produces them (strings) in a third of the sessions; "n0" < "n1" < … keeps the id order
+    return {"kind": "sess", "n": n, "ids": rng.choice(["int", "int", "str"]), "ops": ops}
 
 
 def json_op(op):
@@ -127,8 +128,8 @@ def dtok(x):
     return nc.tok(Fraction(x))
 
 
-def table_tok(tb):
-    return sorted([k[0], k[1], nc.tok(Fraction(v))] for k, v in tb.items())
+def table_tok(tb, unlab=lambda x: x):
+    return sorted([unlab(k[0]), unlab(k[1]), nc.tok(Fraction(v))] for k, v in tb.items())
 
 
 class P(Prop):
@@ -199,6 +200,8 @@ class P(Prop):
         s = ["all edge lists (ordered) of length 0..2 on 1..3 nodes over {src,tgt} x weights {0,1,2} x orientations {-1,0,1} (8067 graphs) x all ordered pairs x cut-offs {d-1/2, d, d+1/2 : d a distance} and none"]
         if tier == "thorough":
             s.append("all multisets of 3 edges on 1..3 nodes over the same alphabet (100482 multigraphs), edge and node insertion order shuffled")
+        s.append("heapq: all lists of 0..%d tuples over priorities {0,1} x keys {0,1} (%d lists): heapify, then heappop until IndexError, the list compared after every step"
+                 % ((5, 1365) if tier == "quick" else (6, 5461)))
         return s
 
     def cases(self, rng, tier):
@@ -245,6 +248,11 @@ class P(Prop):
                     p = rng.choice([0, 1, 1, 2, 3, "1/2", "3/2"])
                     ops.append(["s", rng.randrange(nk), p])
             out.append({"kind": "pq", "init": init, "ops": ops})
+        # heapq, exhaustively: every list of up to 5 (6 in thorough) tuples over {0,1} x {0,1}: heapify, then pop until empty (+ one more)
+        import itertools
+        for ln in range(0, 6 if tier == "quick" else 7):
+            for tp in itertools.product(range(4), repeat=ln):
+                out.append({"kind": "hq", "init": [[c // 2, c % 2] for c in tp], "ops": [["h"]] + [["o"]] * (ln + 1), "ex": 1})
         # heapq on its own: the list after every operation, position by position
         for _ in range(800 if tier == "quick" else 12000):
             nk = rng.randint(1, 5)
@@ -271,7 +279,7 @@ class P(Prop):
             return {"kind": "sess", "calls": "<=8" if len(ks) <= 8 else "9-16" if len(ks) <= 16 else "17+",
                     "edge_after_search": any(k == "e" for k in ks[first_q:]), "sub_network": "s" in ks,
                     "output_dict": any(o[0] in "rdl" and o[-2] == 1 or o[0] == "a" and o[2] == 1 for o in case["ops"]),
-                    "node_objects": any(o[0] in "rdlqhs" and o[-1] != 0 for o in case["ops"])}
+                    "node_objects": any(o[0] in "rdlqhs" and o[-1] != 0 for o in case["ops"]), "ids": case.get("ids", "int")}
         edges = nc.expand(case)
         ws = [nc.num(e[3]) for e in edges]
         pairs = [(min(e[1], e[2]), max(e[1], e[2])) for e in edges]
@@ -344,14 +352,17 @@ class P(Prop):
             net = Network()
             mine = {}          # the Node objects handed to addNode / addEdge
             ud = {}            # the caller's dictionary
+            strs = case.get("ids", "int") == "str"
+            lab = (lambda v: None if v is None else "n%d" % v) if strs else (lambda v: v)
+            unlab = (lambda x: int(x[1:])) if strs else (lambda x: x)
             def node(v):
                 if v not in mine:
-                    mine[v] = Node(v, ENUCoords(v, 0, 0))
+                    mine[v] = Node(lab(v), ENUCoords(v, 0, 0))
                 return mine[v]
             def arg(v, obj):
                 if v is None or obj == 0:
-                    return v
-                return net.NODES[v] if obj == 1 else Node(v, ENUCoords(v, 1, 0))
+                    return lab(v)
+                return net.NODES[lab(v)] if obj == 1 else Node(lab(v), ENUCoords(v, 1, 0))
             ckw = lambda c: {} if c == "none" else {"cut": nc.pynum(c)}
             for op in case["ops"]:
                 k = op[0]
@@ -372,7 +383,7 @@ class P(Prop):
                     r = ["l", [dtok(x) for x in net.shortest_distance(arg(op[1], op[4]), output_dict=ud if op[3] else None, **ckw(op[2]))]]
                 elif k == "a":
                     tb = net.all_shortest_distances(output_dict=ud if op[2] else None, **ckw(op[1]))
-                    r = ["t", table_tok(tb)]
+                    r = ["t", table_tok(tb, unlab)]
                 elif k == "p":
                     net.prepare(verbose=False, **ckw(op[1])); r = "ok"
                 elif k == "q":
@@ -384,10 +395,10 @@ class P(Prop):
                     ids = sub.getNodesId()
                     # searches on the returned network (it shares the Node objects with `net`), then `net` goes on
                     probe = [[dtok(sub.shortest_distance(a, b)) for b in ids] for a in ids]
-                    r = ["s", list(ids), list(sub.getEdgesId()), probe]
+                    r = ["s", [unlab(x) for x in ids], list(sub.getEdgesId()), probe]
                 res.append(r)
                 if (k in "rd" and op[4]) or (k == "l" and op[3]) or (k == "a" and op[2]):
-                    res.append(["t", table_tok(ud)])
+                    res.append(["t", table_tok(ud, unlab)])
         return {"res": res}
 
     def impl_float(self, case):
